@@ -569,7 +569,61 @@ def drums(ctx):
 
 
 # ------------------------------------------------------------------ velocity
+def _ceil_div_form(fn, expr, at):
+  """('ceil' | 'floor' | 'round' | None, numerator, denominator): the integer-division idiom `expr` is written in.
+  ceil:  int(math.ceil(a / n)) | math.ceil(a / n) | -(-a // n) | (a + n - 1) // n | q + 1 if r else q | q + (1 if r else 0) |
+         q + bool(r) | q + (r > 0)   with q, r = divmod(a, n) (or q = a // n, r = a % n)
+  floor: a // n | int(a / n) | int(math.floor(a / n)) | divmod(a, n)[0];   round: round(a / n) | int(a / n + 0.5)"""
+  e = U.expand_locals(fn, expr, at=at)
+  while isinstance(e, ast.Call) and dotted(e.func) in ('int', 'float') and len(e.args) == 1:
+    e = e.args[0]
+
+  def qr(x, op):
+    return x.left, x.right if isinstance(x, ast.BinOp) and isinstance(x.op, op) else None
+  if isinstance(e, ast.Call) and dotted(e.func) in ('math.ceil', 'math.floor', 'round', 'np.ceil', 'np.floor') and len(e.args) == 1 and isinstance(e.args[0], ast.BinOp) and isinstance(e.args[0].op, ast.Div):
+    kind = {'math.ceil': 'ceil', 'np.ceil': 'ceil', 'math.floor': 'floor', 'np.floor': 'floor', 'round': 'round'}[dotted(e.func)]
+    return kind, e.args[0].left, e.args[0].right
+  if isinstance(e, ast.BinOp) and isinstance(e.op, ast.Div):
+    return 'floor', e.left, e.right          # int(a / n) truncates (positive operands)
+  if isinstance(e, ast.UnaryOp) and isinstance(e.op, ast.USub) and isinstance(e.operand, ast.BinOp) and isinstance(e.operand.op, ast.FloorDiv) and \
+      isinstance(e.operand.left, ast.UnaryOp) and isinstance(e.operand.left.op, ast.USub):
+    return 'ceil', e.operand.left.operand, e.operand.right
+  if isinstance(e, ast.BinOp) and isinstance(e.op, ast.FloorDiv):
+    try:     # (a + n - 1) // n
+      a_ = nf.rat(e.left) - nf.rat(e.right) + nf.rat(E('1'))
+      if not any(at_ in a_.atoms() for at_ in nf.rat(e.right).atoms()):
+        return 'ceil', ast.parse(repr(a_).replace('^', '**'), mode='eval').body if False else ('NF', a_), e.right
+    except (nf.NFError, SyntaxError):
+      pass
+    return 'floor', e.left, e.right
+  # q + <1 iff r>   /   q + 1 if r else q
+  def is_floor(x):
+    return isinstance(x, ast.BinOp) and isinstance(x.op, ast.FloorDiv)
+
+  def is_rem_of(x, q):
+    t = x
+    if isinstance(t, ast.Compare) and len(t.ops) == 1 and isinstance(t.ops[0], (ast.Gt, ast.NotEq, ast.Lt)) and 0 in (U.const_value(t.left), U.const_value(t.comparators[0])):
+      t = t.left if U.const_value(t.comparators[0]) == 0 else t.comparators[0]
+    if isinstance(t, ast.Call) and dotted(t.func) == 'bool' and len(t.args) == 1:
+      t = t.args[0]
+    return isinstance(t, ast.BinOp) and isinstance(t.op, ast.Mod) and norm_text(t.left) == norm_text(q.left) and norm_text(t.right) == norm_text(q.right)
+  if isinstance(e, ast.IfExp) and is_rem_of(e.test, e.orelse if is_floor(e.orelse) else ast.BinOp(left=ast.Constant(0), op=ast.FloorDiv(), right=ast.Constant(1))) and is_floor(e.orelse) and \
+      isinstance(e.body, ast.BinOp) and isinstance(e.body.op, ast.Add) and norm_text(e.body.left) == norm_text(e.orelse) and U.const_value(e.body.right) == 1:
+    return 'ceil', e.orelse.left, e.orelse.right
+  if isinstance(e, ast.BinOp) and isinstance(e.op, ast.Add) and is_floor(e.left):
+    x = e.right
+    if isinstance(x, ast.IfExp) and U.const_value(x.body) == 1 and U.const_value(x.orelse) == 0 and is_rem_of(x.test, e.left):
+      return 'ceil', e.left.left, e.left.right
+    if is_rem_of(x, e.left) and not (isinstance(x, ast.BinOp)):
+      return 'ceil', e.left.left, e.left.right
+  return None, None, None
+
+
 def velocity(ctx):
+  """VEL: the three velocity-bin functions, read as formulas (the spelling does not matter):
+  size(n) is ceil(127 / n) in one of the integer-division idioms of _ceil_div_form (a recognised floor / round idiom, or a ceiling
+  of another numerator, is the located deviation; an unrecognised form is "cannot classify");
+  to_bin(v) = (v - MIN + k*size) // size + (1 - k) for k in {0, 1};  to_velocity(b) = MIN + (b - 1) * size in normal form."""
   tb = ctx.func('performance_lib:velocity_to_bin')
   tv = ctx.func('performance_lib:velocity_bin_to_velocity')
   sz = ctx.func('performance_lib:_velocity_bin_size')
@@ -578,53 +632,53 @@ def velocity(ctx):
   ctx.require(len(r1) == 1 and len(r2) == 1, 'velocity bin functions: expected single returns')
   v, nb1 = tb.params()
   b, nb2 = tv.params()
-  # to_bin = (v - MIN) // S + 1
-  e = r1[0].value
-  ok = isinstance(e, ast.BinOp) and isinstance(e.op, ast.Add) and U.const_value(e.right) == 1 and isinstance(e.left, ast.BinOp) and isinstance(e.left.op, ast.FloorDiv)
-  S1 = norm_text(e.left.right) if ok else None
-  num = e.left.left if ok else None
-  ok = ok and S1 == '_velocity_bin_size(%s)' % nb1 and nf.rat(num).equals(nf.rat(E('%s - MIN_MIDI_VELOCITY' % v)))
-  ctx.ob('VEL/to-bin', tb, r1[0], ok, 'bin = (velocity - MIN) // size + 1' if ok else 'velocity_to_bin is not (velocity - MIN_MIDI_VELOCITY) // _velocity_bin_size(n) + 1')
-  # to_velocity(b) substituted into the numerator must be (b - 1) * size exactly
-  ok2 = False
+  SZ1 = '_velocity_bin_size(%s)' % nb1
+  e = U.expand_locals(tb.node, r1[0].value, at=r1[0])
+  ok, unk = False, None
+  try:
+    c, fd = 0, e
+    if isinstance(e, ast.BinOp) and isinstance(e.op, ast.Add) and U.const_value(e.right) is not None:
+      c, fd = U.const_value(e.right), e.left
+    elif isinstance(e, ast.BinOp) and isinstance(e.op, ast.Add) and U.const_value(e.left) is not None:
+      c, fd = U.const_value(e.left), e.right
+    if isinstance(fd, ast.BinOp) and isinstance(fd.op, ast.FloorDiv) and norm_text(fd.right) == SZ1 and c in (0, 1):
+      want = nf.rat(E('%s - MIN_MIDI_VELOCITY' % v)) + nf.rat(E(repr(1 - c))) * nf.rat(E(SZ1))
+      ok = nf.rat(fd.left).equals(want)
+    else:
+      unk = 'cannot classify: velocity_to_bin returns %s' % norm_text(e)[:80]
+  except nf.NFError:
+    unk = 'cannot classify: velocity_to_bin returns %s' % norm_text(e)[:80]
+  ctx.ob('VEL/to-bin', tb, r1[0], ok, 'bin = (velocity - MIN) // size + 1' if ok else (unk or 'velocity_to_bin is not (velocity - MIN_MIDI_VELOCITY) // size + 1 (nor (velocity - MIN + size) // size): %s' % norm_text(e)[:80]),
+         unknown=unk)
+  ok2, unk2 = False, None
   try:
     S = nf.rat(E('_velocity_bin_size(N)'))
-    vexpr = nf.Builder({nb2: E('N')}).rat(r2[0].value)
-    numer = vexpr - nf.rat(E('MIN_MIDI_VELOCITY'))
-    q = numer / S
-    ok2 = q.equals(nf.rat(E('%s - 1' % b)))
+    vexpr = nf.Builder({nb2: E('N')}).rat(U.expand_locals(tv.node, r2[0].value, at=r2[0]))
+    ok2 = (vexpr - nf.rat(E('MIN_MIDI_VELOCITY')) - (nf.rat(E(b)) - nf.rat(E('1'))) * S).is_zero() if hasattr(vexpr, 'is_zero') else \
+        vexpr.equals(nf.rat(E('MIN_MIDI_VELOCITY')) + (nf.rat(E(b)) - nf.rat(E('1'))) * S)
   except nf.NFError:
-    ok2 = False
+    unk2 = 'cannot classify: velocity_bin_to_velocity returns %s' % norm_text(r2[0].value)[:80]
   ctx.ob('VEL/right-inverse', tv, r2[0], ok2, 'velocity(bin) = MIN + (bin - 1) * size, so to_bin(velocity(bin)) = bin' if ok2 else
-         'velocity_bin_to_velocity is not MIN_MIDI_VELOCITY + (bin - 1) * _velocity_bin_size(n): it is not a right inverse of velocity_to_bin')
+         (unk2 or 'velocity_bin_to_velocity is not MIN_MIDI_VELOCITY + (bin - 1) * _velocity_bin_size(n): it is not a right inverse of velocity_to_bin'), unknown=unk2)
   r3 = [s for s in U.walk_stmts(sz.node) if isinstance(s, ast.Return)]
-  ok3 = False
-  calls = []
+  ok3, wrong, why3 = False, False, 'the bin size is not written in a recognised integer-division idiom'
   if len(r3) == 1:
-    calls = [dotted(c.func) for c in U.calls_in(r3[0].value)]
-    div = [n for n in ast.walk(r3[0].value) if isinstance(n, ast.BinOp) and isinstance(n.op, ast.Div)]
-    ex = U.expand_locals(sz.node, r3[0].value, sz.module.assigns, at=r3[0])
-    calls = [dotted(c.func) for c in U.calls_in(ex)]
-    div = [n for n in ast.walk(ex) if isinstance(n, ast.BinOp) and isinstance(n.op, ast.Div)]
-    want_num = nf.rat(U.expand_locals(sz.node, E('MAX_MIDI_VELOCITY - MIN_MIDI_VELOCITY + 1'), sz.module.assigns))
-    try:
-      ok3 = 'math.ceil' in calls and len(div) == 1 and nf.rat(div[0].left).equals(want_num) and norm_text(div[0].right) == sz.params()[0]
-    except nf.NFError:
-      ok3 = False
-  # positively wrong: the quotient is rounded down / to nearest; any other way of writing the size is not classified
-  wrong = r3 and not ok3 and any(c in ('math.floor', 'round', 'int') for c in calls) and 'math.ceil' not in calls or \
-      (r3 and not ok3 and any(isinstance(n, ast.BinOp) and isinstance(n.op, ast.FloorDiv) for n in ast.walk(r3[0].value)) and
-       not any(isinstance(n, ast.UnaryOp) and isinstance(n.op, ast.USub) for n in ast.walk(r3[0].value)))
-  try:
-    # located and different in normal form: ceil(<another constant> / bins)
-    if r3 and not ok3 and 'math.ceil' in calls and len(div) == 1 and norm_text(div[0].right) == sz.params()[0] and (nf.rat(div[0].left) - want_num).const_value() not in (None, 0):
-      wrong = True
-  except nf.NFError:
-    pass
-  ctx.ob('VEL/bin-size', sz, r3[0] if r3 else sz.node, ok3, 'size = ceil((MAX - MIN + 1) / bins): every velocity falls into 1..bins' if ok3 else
-         'bin size is not ceil((MAX_MIDI_VELOCITY - MIN_MIDI_VELOCITY + 1) / bins)', definite=bool(wrong),
-         unknown=None if (ok3 or wrong) else 'the bin size is not written as int(math.ceil(<range> / bins)) nor as a recognisable floor / round')
-
+    kind, num, den = _ceil_div_form(sz.node, r3[0].value, r3[0])
+    if kind is not None:
+      try:
+        numr = num[1] if isinstance(num, tuple) else nf.rat(U.expand_locals(sz.node, num, sz.module.assigns, at=r3[0]))
+        want_num = nf.rat(U.expand_locals(sz.node, E('MAX_MIDI_VELOCITY - MIN_MIDI_VELOCITY + 1'), sz.module.assigns))
+        same_num = numr.equals(want_num)
+        same_den = norm_text(den) == sz.params()[0]
+        ok3 = kind == 'ceil' and same_num and same_den
+        if not ok3 and same_den and (kind in ('floor', 'round') or (kind == 'ceil' and (numr - want_num).const_value() not in (None, 0))):
+          wrong = True
+          why3 = 'the bin size is %s(%s / bins), not ceil((MAX_MIDI_VELOCITY - MIN_MIDI_VELOCITY + 1) / bins): %s' % (
+              kind, repr(numr), 'bin numbers above the bin count appear / the top velocities share no bin' if kind != 'ceil' else 'the bins are too narrow or too wide when the bin count divides the numerator')
+      except nf.NFError:
+        pass
+  ctx.ob('VEL/bin-size', sz, r3[0] if r3 else sz.node, ok3, 'size = ceil((MAX - MIN + 1) / bins): every velocity falls into 1..bins' if ok3 else why3, definite=wrong,
+         unknown=None if (ok3 or wrong) else 'cannot classify: ' + why3)
 
 MUTANTS = [
     Mutant('seed C09_d: drum types collected in a list', DE, "    drum_type_indices = set()", "    drum_type_indices = []", rule='INV/drums-type-set', also=[(DE, "        drum_type_indices.add(self._inverse_drum_map[pitch])", "        drum_type_indices.append(self._inverse_drum_map[pitch])")]),
